@@ -2,7 +2,7 @@
    Statements only; proofs live in Proofs/C15Proofs.v.  A message is its octets; [Panic] is a Rust panic, [Err] an error return;
    the enc_* functions are the reference encoder of RFC 7854 (Model/Bmp.v, specification only). *)
 From Coq Require Import List NArith Bool.
-From RC Require Import Base.Res Base.Wire Model.Open Model.Negotiate Model.OpenMsg Model.Update Model.Bmp Gen.BmpPins Proofs.C15Proofs.
+From RC Require Import Base.Res Base.Wire Model.Open Model.Negotiate Model.OpenMsg Model.Update Model.Bmp Gen.BmpPins Proofs.C15Proofs Proofs.C15Open.
 Import ListNotations.
 Open Scope N_scope.
 
@@ -169,3 +169,10 @@ Theorem c15_dispatch_table : (forall t, kind_of t = option_map kind_of_mt (mt_lo
 Proof. exact c15_dispatch_table_proof. Qed.
 Check c15_dispatch_table : (forall t, kind_of t = option_map kind_of_mt (mt_lookup bmp_msg_types t)) /\ COFF = bmp_coff.
 Print Assumptions c15_dispatch_table.
+
+(* the two OPEN messages a Peer Up notification hands out have passed OpenMessage's own check: by C03 (c03_open_accessors_total,
+   c03_open_accepted_is) none of their accessors - capabilities, my_asn, multiprotocol_ids, addpath_families .. - panics *)
+Theorem c15_embedded_opens_checked : forall b s r p, a_pu_opens b = Ok (s, r, p) -> open_check s = Ok tt /\ open_check r = Ok tt.
+Proof. exact c15_embedded_opens_checked_proof. Qed.
+Check c15_embedded_opens_checked : forall b s r p, a_pu_opens b = Ok (s, r, p) -> open_check s = Ok tt /\ open_check r = Ok tt.
+Print Assumptions c15_embedded_opens_checked.
